@@ -203,6 +203,10 @@ pub fn payload_classes(seed: u64, format: TileFormat) -> Payloads {
 			("one_byte_far", (9, 300, 301), vec![0x42]), // second block of a level
 			("zeros_999", (9, 301, 300), vec![0u8; 999]),
 			("zeros_1000", (9, 300, 300), vec![0u8; 1000]), // around the <1000 byte de-dup threshold
+			("ones_999_dup", (9, 301, 302), vec![1u8; 999]),
+			("ones_999_dup2", (9, 302, 302), vec![1u8; 999]),
+			("ones_1000_dup", (9, 303, 302), vec![1u8; 1000]),
+			("ones_1000_dup2", (9, 304, 302), vec![1u8; 1000]),
 			// identical small payloads on both sides of a 256-block border of ONE level (x = 254 | 257 at zoom 9): the
 			// de-duplication of the versatiles writer stores block-relative ranges and must not leak across blocks
 			// (seeded regression C04-5); the padding tiles make the relative offsets of the two blocks differ
@@ -307,7 +311,12 @@ fn proc_case(out: &mut Out, s: TileCompression, d: TileCompression, f: bool, kin
 	let inp = decompress(Blob::from(blob.clone()), &s).ok().map(|b| b.into_vec());
 	let r = catch(|| {
 		let conv = TileConverter::new_tile_recompressor(&s, &d, f).unwrap();
-		conv.process_blob(Blob::from(blob.clone())).ok().map(|b| b.into_vec())
+		let first = conv.process_blob(Blob::from(blob.clone())).ok().map(|b| b.into_vec());
+		// the same converter object used a second time must give the same answer (no state)
+		let second = conv.clone().process_blob(Blob::from(blob.clone())).ok().map(|b| b.into_vec());
+		let third = conv.process_blob(Blob::from(blob.clone())).ok().map(|b| b.into_vec());
+		assert!(first == second && first == third, "TileConverter is not stateless");
+		first
 	});
 	let ans = match &r {
 		Ok(Some(b2)) => {
@@ -691,6 +700,308 @@ fn leaves_case(out: &mut Out, args: &Args, rt: &tokio::runtime::Runtime, s: Tile
 }
 
 // ---------------------------------------------------------------------------------------------
+// "worlds": option interplay, pre-existing output, extreme coordinates, independently written sources, many tiles,
+// faulty sources (CHECKLIST classes 1, 2, 4, 5, 8, 9)
+// ---------------------------------------------------------------------------------------------
+type Coord3 = (u8, u32, u32);
+
+/// convert `reader` with `cp` into `path`, reopen with the matching reader, compare with `expected` (payload per OUTPUT
+/// coordinate).  Returns the model answer.
+#[allow(clippy::too_many_arguments)]
+fn convert_and_check(out: &mut Out, rt: &tokio::runtime::Runtime, line: &str, kind: &str, reader: Box<dyn TilesReaderTrait>, cp: TilesConverterParameters, path: &Path, expected: &BTreeMap<Coord3, Vec<u8>>, expected_declared: TileCompression, nontrivial: bool) -> String {
+	let fmt_of_line = line.split(' ').nth(3).unwrap_or("-").to_string();
+	let sig = |k: &str| json!({"kind": k, "world": kind, "fmt": fmt_of_line});
+	let path_s = path.to_str().unwrap().to_string();
+	let r = catch(|| rt.block_on(convert_tiles_container(reader, cp, &path_s)));
+	match r {
+		Err(m) => {
+			out.oracle(false, "C04 world panic", sig("world_panic"), json!({"case": line, "panic": trunc(&m, 200)}));
+			"panic".into()
+		}
+		Ok(Err(e)) => {
+			let refused = format!("{e:#}").contains("not supported");
+			out.oracle(refused, "C04 world error", sig("world_error"), json!({"case": line, "error": trunc(&format!("{e:#}"), 200)}));
+			if refused { "rejected".into() } else { "err".into() }
+		}
+		Ok(Ok(())) => {
+			let coords: Vec<Coord3> = expected.keys().cloned().collect();
+			let rb = catch(|| {
+				rt.block_on(async {
+					let rd = get_reader(&path_s).await?;
+					let p = rd.get_parameters().clone();
+					let mut lookups = vec![];
+					for c in coords.iter() {
+						let b = rd.get_tile_data(&TileCoord3::new(c.1, c.2, c.0)?).await.ok().flatten();
+						lookups.push((*c, b.map(|b| b.into_vec())));
+					}
+					let mut streamed: BTreeMap<Coord3, Vec<u8>> = BTreeMap::new();
+					for bbox in p.bbox_pyramid.iter_levels() {
+						// sparse deep levels: only the cells around expected tiles (a full level-31 box cannot be walked)
+						if bbox.count_tiles() > 1_000_000 {
+							continue;
+						}
+						for (c, b) in rd.get_bbox_tile_stream(bbox.clone()).await.collect().await {
+							streamed.insert((c.z, c.x, c.y), b.into_vec());
+						}
+					}
+					let walked: Vec<u8> = p.bbox_pyramid.iter_levels().filter(|b| b.count_tiles() <= 1_000_000).map(|b| b.level).collect();
+					let name = rd.get_tilejson().get_string("name");
+					anyhow::Ok((p, lookups, streamed, walked, name))
+				})
+			});
+			match rb {
+				Ok(Ok((p, lookups, streamed, walked, name))) => {
+					let declared = p.tile_compression;
+					out.oracle(declared == expected_declared, "C04 world declared", sig("world_declared"), json!({"case": line, "declared": cname(declared)}));
+					let bad: Vec<String> = lookups.iter().filter(|(c, b)| b.as_ref().and_then(|b| indep_dec(declared, b)).as_ref() != expected.get(c)).take(5).map(|(c, b)| format!("{}/{}/{}:{}", c.0, c.1, c.2, if b.is_none() { "missing" } else { "wrong" })).collect();
+					out.oracle(bad.is_empty(), "C04 world payload (lookup)", sig("world_lookup_payload"), json!({"case": line, "first_bad": bad, "checked": lookups.len()}));
+					let exp_walked: Vec<(&Coord3, &Vec<u8>)> = expected.iter().filter(|(c, _)| walked.contains(&c.0)).collect();
+					let bad_s: Vec<String> = exp_walked.iter().filter(|(c, p)| streamed.get(*c).and_then(|b| indep_dec(declared, b)).as_ref() != Some(*p)).take(5).map(|(c, _)| format!("{}/{}/{}", c.0, c.1, c.2)).collect();
+					out.oracle(bad_s.is_empty() && streamed.len() == exp_walked.len(), "C04 world payload (stream)", sig("world_stream_payload"), json!({"case": line, "first_bad": bad_s, "streamed": streamed.len(), "expected": exp_walked.len()}));
+					out.oracle(name.as_deref() == Some("verif \u{e4} name") || name.as_deref() == Some("indep"), "C04 world metadata", sig("world_meta"), json!({"case": line, "name": name}));
+					for c in expected.keys() {
+						out.eval(&format!("{line} {c:?}"), nontrivial);
+					}
+					out.count(&format!("world_{kind}"));
+					format!("declared={}", cname(declared))
+				}
+				Ok(Err(e)) => {
+					out.oracle(false, "C04 world readback error", sig("world_readback"), json!({"case": line, "error": trunc(&format!("{e:#}"), 200)}));
+					"readback-err".into()
+				}
+				Err(m) => {
+					out.oracle(false, "C04 world readback panic", sig("world_readback_panic"), json!({"case": line, "panic": trunc(&m, 200)}));
+					"readback-panic".into()
+				}
+			}
+		}
+	}
+}
+
+fn target_path(args: &Args, tag: &str, fmt: &str) -> std::path::PathBuf {
+	let dir = args.out.join("e2e");
+	std::fs::create_dir_all(&dir).unwrap();
+	let p = if fmt == "directory" { dir.join(format!("w_{tag}_dir")) } else { dir.join(format!("w_{tag}.{fmt}")) };
+	if fmt == "directory" {
+		let _ = std::fs::remove_dir_all(&p);
+		std::fs::create_dir_all(&p).unwrap();
+	} else {
+		let _ = std::fs::remove_file(&p);
+	}
+	p
+}
+fn cleanup(p: &Path) {
+	if p.is_dir() {
+		let _ = std::fs::remove_dir_all(p);
+	} else {
+		let _ = std::fs::remove_file(p);
+	}
+}
+fn small_world() -> Vec<(Coord3, Vec<u8>)> {
+	vec![
+		((2, 1, 0), b"tile 2/1/0 tile 2/1/0 tile 2/1/0".to_vec()),
+		((3, 1, 2), b"tile 3/1/2 tile 3/1/2 tile 3/1/2 tile 3/1/2".to_vec()),
+		((3, 5, 6), vec![0x42]),
+		((3, 0, 7), (0..1200u32).map(|i| (i % 13) as u8).collect()),
+		((3, 7, 7), b"tile 3/1/2 tile 3/1/2 tile 3/1/2 tile 3/1/2".to_vec()),
+		((3, 7, 0), gz_enc(b"payload that is a gzip stream", 6)),
+	]
+}
+fn tstr(t: Option<TileCompression>) -> &'static str {
+	t.map_or("keep", cname)
+}
+
+/// `C04 world <kind> <fmt> <src> <target> <force> <a> <b> <c>` – a, b, c depend on the kind
+#[allow(clippy::too_many_arguments)]
+fn world_case(out: &mut Out, args: &Args, rt: &tokio::runtime::Runtime, kind: &str, fmt: &str, s: TileCompression, t: Option<TileCompression>, f: bool, a: u8, b: u8, c: u8) {
+	let line = format!("C04 world {kind} {fmt} {} {} {} {a} {b} {c}", cname(s), tstr(t), f as u8);
+	let declared = t.unwrap_or(s);
+	let tj = source_tilejson(true);
+	let tag = format!("{kind}_{fmt}_{}_{}_{}_{a}{b}{c}", cname(s), tstr(t), f as u8);
+	let path = target_path(args, &tag, fmt);
+	let ans = match kind {
+		// class 4: compression change × force × flip_y × swap_xy × bbox
+		"opts" => {
+			let (flip, swap, with_bbox) = (a == 1, b == 1, c == 1);
+			let world = small_world();
+			let src: Vec<(Coord3, Vec<u8>)> = world.iter().map(|(c, p)| (*c, indep_enc(s, p))).collect();
+			let reader = MemReader::new(TileFormat::PBF, s, tj, &src);
+			let bbox = if with_bbox {
+				let mut p = TileBBoxPyramid::new_empty();
+				p.include_bbox(&versatiles_core::types::TileBBox::new(3, 0, 0, 7, 7).unwrap());
+				Some(p)
+			} else {
+				None
+			};
+			let cp = TilesConverterParameters::new(t, bbox, f, flip, swap);
+			let mut expected = BTreeMap::new();
+			for ((z, x, y), p) in &world {
+				if with_bbox && *z != 3 {
+					continue;
+				}
+				let n = 1u32 << z;
+				let (mut ox, mut oy) = (*x, *y);
+				if flip {
+					oy = n - 1 - oy;
+				}
+				if swap {
+					std::mem::swap(&mut ox, &mut oy);
+				}
+				expected.insert((*z, ox, oy), p.clone());
+			}
+			convert_and_check(out, rt, &line, kind, reader.boxed(), cp, &path, &expected, declared, true)
+		}
+		// class 5: the output already exists and is longer than what will be written (a = 1: garbage, a = 2: an earlier conversion)
+		"preexist" => {
+			let world = small_world();
+			let src: Vec<(Coord3, Vec<u8>)> = world.iter().map(|(c, p)| (*c, indep_enc(s, p))).collect();
+			if fmt == "directory" {
+				// an earlier conversion of the SAME world with another compression left its files behind
+				let earlier: Vec<(Coord3, Vec<u8>)> = world.iter().map(|(c, p)| (*c, p.clone())).collect();
+				let mut r0 = MemReader::new(TileFormat::PBF, TileCompression::Uncompressed, tj.clone(), &earlier);
+				rt.block_on(versatiles_container::write_to_filename(&mut r0, path.to_str().unwrap())).unwrap();
+			} else if a == 2 {
+				let big: Vec<(Coord3, Vec<u8>)> = (0..64u32).map(|i| ((6u8, i, i), vec![i as u8; 5000])).collect();
+				let fm = if fmt == "mbtiles" { TileCompression::Gzip } else { TileCompression::Uncompressed };
+				let mut r0 = MemReader::new(TileFormat::PBF, fm, tj.clone(), &big);
+				rt.block_on(versatiles_container::write_to_filename(&mut r0, path.to_str().unwrap())).unwrap();
+			} else {
+				std::fs::write(&path, vec![0xABu8; 400_000]).unwrap();
+			}
+			let reader = MemReader::new(TileFormat::PBF, s, tj, &src);
+			let cp = TilesConverterParameters::new(t, None, f, false, false);
+			let expected: BTreeMap<Coord3, Vec<u8>> = world.into_iter().collect();
+			convert_and_check(out, rt, &line, kind, reader.boxed(), cp, &path, &expected, declared, true)
+		}
+		// class 8: zoom 0 and the far corner of zoom 30 / 31
+		"z31" => {
+			let m31 = 0x7fff_ffffu32;
+			let world: Vec<(Coord3, Vec<u8>)> = vec![
+				((0, 0, 0), b"the one tile of zoom 0".to_vec()),
+				((30, 0x3fff_ffff, 0x3fff_ffff), b"far corner of zoom 30".to_vec()),
+				((31, m31, m31), b"far corner of zoom 31".to_vec()),
+				((31, m31 - 1, m31), vec![0x42]),
+				((31, m31, m31 - 300), b"another block row at zoom 31".to_vec()),
+			];
+			let src: Vec<(Coord3, Vec<u8>)> = world.iter().map(|(c, p)| (*c, indep_enc(s, p))).collect();
+			let reader = MemReader::new(TileFormat::PBF, s, tj, &src);
+			let cp = TilesConverterParameters::new(t, None, f, false, false);
+			let expected: BTreeMap<Coord3, Vec<u8>> = world.into_iter().collect();
+			convert_and_check(out, rt, &line, kind, reader.boxed(), cp, &path, &expected, declared, true)
+		}
+		// class 9: the SOURCE container was not written by this code base
+		"indep" => {
+			use crate::indep_formats as fi;
+			let world = small_world();
+			let stored: fi::TileMap = world.iter().map(|(c, p)| (*c, indep_enc(s, p))).collect();
+			let mut rng = Rng::new(args.seed ^ 0x1de9);
+			let comp = match s {
+				TileCompression::Uncompressed => fi::Comp::None,
+				TileCompression::Gzip => fi::Comp::Gzip,
+				TileCompression::Brotli => fi::Comp::Brotli,
+			};
+			let srcp = args.out.join("e2e").join(format!("indep_src_{tag}.{}", if a == 0 { "versatiles" } else { "pmtiles" }));
+			let bytes = if a == 0 {
+				let mut ch = fi::VtChoices::plain(fi::Fmt::Pbf, comp);
+				ch.meta = Some(b"{\"tilejson\":\"3.0.0\",\"name\":\"indep\"}".to_vec());
+				ch.range_mode = 1;
+				ch.shuffle_blocks = true;
+				ch.shuffle_index = true;
+				ch.blob_order = 1 + b;
+				ch.share = true;
+				ch.max_gap = 9;
+				fi::encode_versatiles(&stored, &ch, &mut rng).bytes
+			} else {
+				let mut ch = fi::PmChoices::plain(1, comp.pm_code());
+				ch.meta = b"{\"name\":\"indep\"}".to_vec();
+				ch.levels = 2;
+				ch.fan_leaf = 2;
+				ch.merge_runs = true;
+				ch.share = true;
+				ch.section_order = if b == 0 { [2, 1, 0] } else { [1, 0, 2] };
+				ch.max_gap = 4;
+				fi::encode_pmtiles(&stored, &ch, &mut rng).bytes
+			};
+			std::fs::write(&srcp, bytes).unwrap();
+			let opened = catch(|| rt.block_on(get_reader(srcp.to_str().unwrap())));
+			let r = match opened {
+				Ok(Ok(reader)) => {
+					let cp = TilesConverterParameters::new(t, None, f, false, false);
+					let expected: BTreeMap<Coord3, Vec<u8>> = world.into_iter().collect();
+					convert_and_check(out, rt, &line, kind, reader, cp, &path, &expected, declared, true)
+				}
+				_ => {
+					out.oracle(false, "C04 world: independently written source cannot be opened", json!({"kind":"world_indep_open","world":kind}), json!({"case": line}));
+					"open-err".into()
+				}
+			};
+			let _ = std::fs::remove_file(&srcp);
+			r
+		}
+		// class 1: more tiles than the writers' batch sizes (mbtiles inserts in batches of 2000)
+		"many" => {
+			let side = 20 + 45 * a as u32; // a = 1: 65 × 65 = 4225 tiles
+			let mut world: Vec<(Coord3, Vec<u8>)> = vec![];
+			for x in 0..side {
+				for y in 0..side {
+					world.push(((7, 10 + x, 30 + y), format!("tile {x} {y} {}", "x".repeat(((x * 7 + y) % 40) as usize)).into_bytes()));
+				}
+			}
+			let src: Vec<(Coord3, Vec<u8>)> = world.iter().map(|(c, p)| (*c, if s == TileCompression::Uncompressed { p.clone() } else { indep_enc(s, p) })).collect();
+			let reader = MemReader::new(TileFormat::PBF, s, tj, &src);
+			let cp = TilesConverterParameters::new(t, None, f, false, false);
+			let expected: BTreeMap<Coord3, Vec<u8>> = world.into_iter().collect();
+			convert_and_check(out, rt, &line, kind, reader.boxed(), cp, &path, &expected, declared, true)
+		}
+		// class 2: one stored tile is not a valid stream of the declared compression
+		"fault" => {
+			let world = small_world();
+			let mut src: Vec<(Coord3, Vec<u8>)> = world.iter().map(|(c, p)| (*c, indep_enc(s, p))).collect();
+			src[2].1 = b"this is neither gzip nor brotli \xff\xfe\xfd".to_vec();
+			let must_recode = f || declared != s;
+			let reader = MemReader::new(TileFormat::PBF, s, tj, &src);
+			let cp = TilesConverterParameters::new(t, None, f, false, false);
+			let path_s = path.to_str().unwrap().to_string();
+			let r = catch(|| rt.block_on(convert_tiles_container(reader.boxed(), cp, &path_s)));
+			let sig = json!({"kind":"world_fault","world":kind,"fmt":fmt,"must_recode":must_recode});
+			match r {
+				Ok(Ok(())) => {
+					// delivered: then EVERYTHING must be there unchanged (only possible when nothing had to be recoded)
+					let rb = catch(|| {
+						rt.block_on(async {
+							let rd = get_reader(&path_s).await?;
+							let mut v = vec![];
+							for (c, _) in &src {
+								v.push(rd.get_tile_data(&TileCoord3::new(c.1, c.2, c.0)?).await.ok().flatten().map(|b| b.into_vec()));
+							}
+							anyhow::Ok(v)
+						})
+					});
+					let same = matches!(&rb, Ok(Ok(v)) if v.iter().zip(src.iter()).all(|(got, (_, want))| got.as_ref() == Some(want)));
+					out.oracle(!must_recode && same, "C04 world fault: conversion of an undecodable tile reported success", sig, json!({"case": line, "all_tiles_identical": same}));
+					out.eval(&line, true);
+					if must_recode { "ok-but-should-fail".into() } else { format!("declared={}", cname(declared)) }
+				}
+				_ => {
+					// failing loudly is right when the tile has to be recoded
+					out.oracle(must_recode, "C04 world fault: pass-through conversion failed", sig, json!({"case": line}));
+					out.eval(&line, true);
+					"failed".into()
+				}
+			}
+		}
+		_ => panic!("world kind {kind}"),
+	};
+	if kind == "preexist" && fmt == "directory" {
+		// stale files of the earlier conversion are outside the model (known finding C04-directory-stale-files): oracle only
+		out.eval(&line, true);
+	} else {
+		out.case(&line, &ans, true);
+	}
+	cleanup(&path);
+}
+
+// ---------------------------------------------------------------------------------------------
 // assumed codec laws, tested on the real crates
 // ---------------------------------------------------------------------------------------------
 fn law_checks(out: &mut Out, args: &Args, rng: &mut Rng) {
@@ -793,6 +1104,7 @@ fn replay_line(out: &mut Out, args: &Args, rt: &tokio::runtime::Runtime, n: &mut
 		["C04", "conv", s, tg, f] => conv_case(out, parse_comp(s).unwrap(), tgt(tg), b(f)),
 		["C04", "proc", s, d, f, kind, p] => proc_case(out, parse_comp(s).unwrap(), parse_comp(d).unwrap(), b(f), kind, &unhex(p)),
 		["C04", "rec", s, d, kind, p] => rec_case(out, parse_comp(s).unwrap(), parse_comp(d).unwrap(), kind, &unhex(p)),
+		["C04", "world", kind, fmt, s, tg, f, a, bb, c] => world_case(out, args, rt, kind, fmt, parse_comp(s).unwrap(), tgt(tg), b(f), a.parse().unwrap(), bb.parse().unwrap(), c.parse().unwrap()),
 		["C04", "leaves", s, tg, f] => leaves_case(out, args, rt, parse_comp(s).unwrap(), tgt(tg), b(f)),
 		["C04", "stream", s, d, f] => stream_check(out, rt, parse_comp(s).unwrap(), parse_comp(d).unwrap(), b(f)),
 		["C04", "e2e", fmt, tf, s, tg, f] => e2e_case(out, args, rt, n, fmt, tf, parse_comp(s).unwrap(), tgt(tg), b(f)),
@@ -856,6 +1168,49 @@ pub fn run(args: &Args) {
 	if args.thorough() {
 		leaves_case(&mut out, args, &rt, TileCompression::Uncompressed, Some(TileCompression::Gzip), false);
 		leaves_case(&mut out, args, &rt, TileCompression::Brotli, None, true);
+	}
+	// D''. worlds
+	{
+		use TileCompression::*;
+		let pairs: [(TileCompression, Option<TileCompression>, bool); 3] = [(Uncompressed, Some(Gzip), false), (Gzip, Some(Brotli), false), (Brotli, None, true)];
+		for (i, (s, t, f)) in pairs.iter().enumerate() {
+			for (flip, swap) in [(1u8, 0u8), (0, 1), (1, 1)] {
+				for bbox in [0u8, 1] {
+					for fmt in ["versatiles", "tar"] {
+						if !args.thorough() && fmt == "tar" && (i + flip as usize + bbox as usize) % 2 == 0 {
+							continue;
+						}
+						world_case(&mut out, args, &rt, "opts", fmt, *s, *t, *f, flip, swap, bbox);
+					}
+				}
+			}
+		}
+		for fmt in ["versatiles", "pmtiles", "tar", "mbtiles", "directory"] {
+			let (s, t) = if fmt == "mbtiles" { (Uncompressed, Some(Gzip)) } else { (Gzip, Some(Brotli)) };
+			world_case(&mut out, args, &rt, "preexist", fmt, s, t, false, 1, 0, 0);
+			if fmt != "directory" {
+				world_case(&mut out, args, &rt, "preexist", fmt, s, t, false, 2, 0, 0);
+			}
+			world_case(&mut out, args, &rt, "z31", fmt, s, t, false, 0, 0, 0);
+			// (a raw source cannot hold an undecodable tile: every byte string is valid uncompressed data)
+			if fmt == "mbtiles" {
+				world_case(&mut out, args, &rt, "fault", fmt, Gzip, None, true, 0, 0, 0);
+			} else {
+				world_case(&mut out, args, &rt, "fault", fmt, s, t, false, 0, 0, 0);
+			}
+			world_case(&mut out, args, &rt, "fault", fmt, Gzip, None, false, 0, 0, 0);
+		}
+		for a in [0u8, 1] {
+			for bb in [0u8, 1] {
+				world_case(&mut out, args, &rt, "indep", "versatiles", Gzip, Some(Brotli), false, a, bb, 0);
+				world_case(&mut out, args, &rt, "indep", "pmtiles", Brotli, Some(Uncompressed), false, a, bb, 0);
+			}
+		}
+		world_case(&mut out, args, &rt, "many", "mbtiles", Uncompressed, Some(Gzip), false, 1, 0, 0);
+		if args.thorough() {
+			world_case(&mut out, args, &rt, "many", "tar", Gzip, Some(Brotli), false, 1, 0, 0);
+			world_case(&mut out, args, &rt, "many", "versatiles", Brotli, Some(Gzip), true, 1, 0, 0);
+		}
 	}
 	// D. end to end
 	for fmt in FMTS {
